@@ -618,6 +618,66 @@ func c07StreamBody(ch *engine.Chooser) engine.Result {
 	return res
 }
 
+// ---- scenario "nested-readers" -------------------------------------------------------------------
+
+type c07NestCase struct {
+	Outer int `json:"outer_section"`
+	Inner int `json:"inner_section"`
+	Chunk int `json:"chunk"`
+}
+
+func c07NestStream(sec *ref.PATSection, foreign int) []byte {
+	var stream []byte
+	for i := 0; i < foreign; i++ {
+		p := c07Foreign(1+i%3, byte(i))
+		stream = append(stream, p[:]...)
+	}
+	pk := ref.CarryPayload(0, true, 4, ref.PadPayload(append(ref.Pointer(0), sec.Bytes()...), 184))
+	return append(stream, pk[:]...)
+}
+
+// c07CheckNest: while ReadPAT is waiting in a Read of its source, the source completes a ReadPAT of
+// its own on another stream (at every Read position). Both calls must return their own table.
+func c07CheckNest(c c07NestCase) engine.Result {
+	var res engine.Result
+	so, si := c07StreamSections[c.Outer], c07StreamSections[c.Inner]
+	outer, inner := c07NestStream(&so, 2), c07NestStream(&si, 1)
+	mo, mi := so.Model(), si.Model()
+	probe := &nestReader{inner: &c07ChunkReader{outer, c.Chunk}, at: -1}
+	if _, err := psi.ReadPAT(probe); err != nil {
+		res.Failf("ReadPAT|nested|plain-read-fails", "%v", err)
+		return res
+	}
+	var pb [48]int
+	for at := 1; at <= probe.calls; at++ {
+		var ipat psi.PAT
+		var ierr error
+		rd := &nestReader{inner: &c07ChunkReader{outer, c.Chunk}, at: at, do: func() {
+			ipat, ierr = psi.ReadPAT(&c07ChunkReader{inner, 100})
+		}}
+		var pat psi.PAT
+		var err error
+		res.Evals++
+		if engine.Guard(&res, "ReadPAT|nested", func() { pat, err = psi.ReadPAT(rd) }) {
+			return res
+		}
+		if err != nil || pat == nil || ierr != nil || ipat == nil {
+			res.Failf("ReadPAT|nested-inside-a-ReadPAT|error", "another ReadPAT ran during Read call #%d (pieces of %d bytes): outer err=%v inner err=%v", at, c.Chunk, err, ierr)
+			return res
+		}
+		engine.Guard(&res, "PAT-accessors", func() {
+			c07Verify(&res, "ReadPAT,another-ReadPAT-ran-inside-a-Read", c07Class(so.Entries), pat, &mo, c07Probes(so.Entries, pb[:0]), false)
+			c07Verify(&res, "ReadPAT,ran-inside-a-Read-of-another-ReadPAT", c07Class(si.Entries), ipat, &mi, c07Probes(si.Entries, pb[:0]), false)
+		})
+		if len(res.Fail) > 6 {
+			break
+		}
+	}
+	res.Nontrivial = 1
+	res.Outcome(c.Outer, c.Inner, c.Chunk)
+	return res
+}
+
 // ---- scenario "nil-pat" ------------------------------------------------------------------------
 
 type c07NilCase struct {
@@ -784,6 +844,20 @@ func init() {
 					}
 				},
 				Check: c07CheckReuse, Batch: 64, // one batch = one worker: the cases run back to back, undisturbed by other goroutines
+			},
+			&engine.Enum[c07NestCase]{
+				Name: "nested-readers",
+				Rule: "every ordered pair (outer, inner) of the 7 stream sections x outer reader pieces of {1,3,100,188,189,400} bytes: ReadPAT over two foreign packets + the outer PAT; at EVERY Read call position the source first completes another ReadPAT over a stream holding the inner PAT; both results must be exactly their own table (finds packet or section buffers shared between calls)",
+				Gen: func(r *engine.Run, emit func(c07NestCase)) {
+					for o := range c07StreamSections {
+						for i := range c07StreamSections {
+							for _, ch := range []int{1, 3, 100, 188, 189, 400} {
+								emit(c07NestCase{o, i, ch})
+							}
+						}
+					}
+				},
+				Check: c07CheckNest, Batch: 4,
 			},
 			&engine.Enum[c07NilCase]{
 				Name: "nil-pat",
